@@ -116,4 +116,8 @@ MonBounded == Mon("BoundedRounds", BoundedRounds)
 MonConservation == Mon("Conservation", ConservationLast)
 MonTiebreaks == Mon("TiebreaksWellFormed", TiebreaksWellFormed)
 MonDPC == Mon("DPC", DPC)
+(* C10 on the code's own law: the harness labels every step with its exact conditional probability over all outcomes of the
+   scripted random source; a step the code can resolve in more than one way must record a tiebreak *)
+MonRandomTie == Mon("RandomWithoutTiebreak", l = 0 \/ RandomByRequest \/ T.events[l].ev # "Round"
+                      \/ T.events[l].p[2] = 0 \/ T.events[l].p = <<1, 1>> \/ LastR.tiebreaks # {})
 =============================================================================
